@@ -175,8 +175,8 @@ class LocationInfoRequest(LocationInfo):
         AvpGenDef("oc_supported_features", AVP_OC_SUPPORTED_FEATURES, type_class=OcSupportedFeatures),
         AvpGenDef("supported_features", AVP_TGPP_SUPPORTED_FEATURES, VENDOR_TGPP, type_class=SupportedFeatures),
         AvpGenDef("public_identity", AVP_TGPP_PUBLIC_IDENTITY, VENDOR_TGPP, is_required=True),
-        AvpGenDef("sip_auth_data_item", AVP_SIP_AUTH_DATA_ITEM, is_required=True, type_class=SipAuthDataItem),
-        AvpGenDef("sip_number_auth_items", AVP_SIP_NUMBER_AUTH_ITEMS, is_required=True),
+        AvpGenDef("sip_auth_data_item", AVP_TGPP_3GPP_SIP_AUTH_DATA_ITEM, VENDOR_TGPP, is_required=True, type_class=SipAuthDataItem),
+        AvpGenDef("sip_number_auth_items", AVP_TGPP_3GPP_SIP_NUMBER_AUTH_ITEMS, VENDOR_TGPP, is_required=True),
         AvpGenDef("server_name", AVP_TGPP_SERVER_NAME, VENDOR_TGPP, is_required=True),
         AvpGenDef("proxy_info", AVP_PROXY_INFO, type_class=ProxyInfo),
         AvpGenDef("route_record", AVP_ROUTE_RECORD)
